@@ -310,14 +310,16 @@ def exSentenceRep : Sentence :=
   .rep 3 (.val (.str false [[.raw 98, .raw 97, .raw 100], [.raw 32, .raw 108, .raw 117, .raw 99, .raw 107]])) ::
   .rep 1000 (.val (.int (-7) .dec false)) :: .rep 2147483647 (.val (.kw .nil)) :: exSentence.drop 5
 
-theorem exProved : Proved exSentenceRep L0 := by
+def exLayoutRep : Layout := { L0 with blank := fun p => if p = [6, 0] then [.sp] else [] }
+
+theorem exProved : Proved exSentenceRep exLayoutRep := by
   unfold Proved exSentenceRep exSentence
   simp only [List.drop_succ_cons, List.drop_zero, provedFrom, SVal.proved, and_true]
   refine ⟨⟨?_, ?_, ?_, ?_⟩, ⟨?_, ?_, ?_, ?_⟩, ⟨?_, ?_, ?_, ?_⟩, ⟨?_, ?_⟩, ⟨?_, ?_⟩, ⟨?_, ?_⟩, ⟨?_, ?_⟩, ⟨?_, ?_⟩,
     ⟨?_, ?_⟩, ⟨?_, ?_⟩⟩ <;> decide +kernel
 
-example : String.ofList ((render exSentenceRep L0).map (fun b => Char.ofNat b.toNat)) =
-    "3x\"bad\"\\\" luck\" 1000x-7 2147483647xnil \"hi\\n\"\\\"\"\\\"\\\"\" \"\"S An_Identifier_12345 BLOB[2 0x72 0x74] now 123i #8badf00d" := by
+example : String.ofList ((render exSentenceRep exLayoutRep).map (fun b => Char.ofNat b.toNat)) =
+    "3x\"bad\"\\\" luck\" 1000x-7 2147483647xnil \"hi\\n\"\\\"\"\\\"\\\"\" \"\"S An_Identifier_12345 BLOB [2 0x72 0x74] now 123i #8badf00d" := by
   decide +kernel
 
 /-- the hypotheses of all `_partial` theorems hold for a non-trivial sentence -/
